@@ -57,6 +57,7 @@ def validate_traces(module, cfg, traces, spec_dir, out_dir, tag="trace", timeout
     v = TraceVerdict(ok=res.ok, res=res)
     for m in re.finditer(r'<<"REJECTED", (\d+), (\d+)>>', res.stdout):
         v.rejected[int(m.group(1)) - 1] = int(m.group(2)) - 1
+    v.readback = {int(m.group(1)) - 1: int(m.group(2)) for m in re.finditer(r'<<"READBACK", (\d+), (\d+)>>', res.stdout)}
     if res.violated and res.kind in ("invariant", "action"):
         v.invariant = res.violated
         if res.trace:
@@ -91,7 +92,9 @@ def _validate_shard(module, cfg, traces, idxs, spec_dir, out_dir, tag, max_round
             return problems, 0, results
         for j, upto in sorted(v.rejected.items()):
             problems.append((alive[j], "rejected", upto))
-        bad = {alive[j] for j in v.rejected}
+        for j, code in sorted(v.readback.items()):
+            problems.append((alive[j], "readback", code))
+        bad = {alive[j] for j in v.rejected} | {alive[j] for j in v.readback}
         return problems, len([i for i in alive if i not in bad]), results
     problems.append((-1, "unfinished", f"{len(alive)} traces not validated after {max_rounds} rounds"))
     return problems, 0, results
